@@ -247,6 +247,15 @@ def projection_case(ctx, rng, given=None):
         if long_axis is not None:
             ctx.count("feature", "axis-longer-than-96")
         duals = [rng.random() < 0.5 for _ in range(nd)]
+        if nd >= 2 and long_axis is None and rng.random() < 0.15:
+            # two or all axes carry the SAME labelling (a local operator: every leg has the
+            # physical basis), usually with different directions
+            i_, j_ = rng.sample(range(nd), 2)
+            labels[j_] = list(labels[i_])
+            if nd == 3 and rng.random() < 0.4:
+                labels[3 - i_ - j_] = list(labels[i_])
+            if rng.random() < 0.7:
+                duals[j_] = not duals[i_]
     shape = [len(l) for l in labels]
     spec = (sym, ferm, labels, duals)
     cplx = rng.random() < 0.3
@@ -291,6 +300,16 @@ def projection_case(ctx, rng, given=None):
         return list(l)
 
     maps = [as_map(l) for l in labels]
+    if rng.random() < 0.7:
+        # equal labellings handed over as ONE object (index_maps=[m, m, ...])
+        for j_ in range(1, nd):
+            for i_ in range(j_):
+                if labels[i_] == labels[j_] and maps[j_] is not maps[i_]:
+                    maps[j_] = maps[i_]
+                    ctx.count("feature", "one-map-object-on-several-axes")
+                    if bool(duals[i_]) != bool(duals[j_]):
+                        ctx.count("feature", "one-map-object-on-axes-of-different-direction")
+                    break
     ctx.count("labels-form", fmt)
     inv = rng.choice(["ignore", "warn", "raise"])
     w = {"symmetry": sym, "class": cls.__name__, "labels": [list(map(repr, l)) for l in labels], "duals": duals, "charge": repr(charge), "dense": repr(D.tolist()), "invalid_sectors": inv}
